@@ -9,6 +9,7 @@ template <class Tag, class Img> void rt(Img& img, Tag tag){
   std::string name("f"); std::ofstream out("o", std::ios::binary);
   write_view(name, view(img), tag); write_view(out, view(img), tag);
   read_image(name, img, tag);
+  std::ifstream in("f", std::ios::binary); read_image(in, img, tag);
   image_read_settings<Tag> st(point_t(1,1), point_t(2,2));
   read_image(name, img, st);
 }
